@@ -298,10 +298,9 @@ func classifyMatrix(f matrixFailure, cc *ctxClass) string {
 	case f.m.decl == "render" && !f.m.ctx.url && !compatible(resFormat, f.m.ctx.top):
 		// the *ast.Render fast path has no format / context test
 		id = "render-fastpath-format"
-	case f.m.decl != "render" && f.m.ctx.url && compatible(resFormat, f.m.ctx.top):
-		// canOptimizeShowMacro does not look at the emitter's inURL flag: in a Markdown link
-		// destination (context Markdown + URL) a Markdown macro call is written without URL escaping
-		id = "macro-fastpath-ignores-url"
+		// (a class macro-fastpath-ignores-url — canOptimizeShowMacro did not look at the emitter's inURL
+		// flag — stood here until 173b2b7 repaired it; a `{{ M() }}` in a URL that deviates from the
+		// variable form is a violation now)
 	default:
 		return ""
 	}
